@@ -10,7 +10,7 @@
 From Coq Require Import String Lia.
 From FA Require Import model.Base model.Varint model.Value model.Schema model.Utf8 model.Float model.Codec
                        model.Validate model.Write model.Read model.Conform model.Container model.ContainerPy
-                       proofs.ElabProofs proofs.AcceptIff proofs.ElabFloats proofs.GateProofs.
+                       proofs.ElabProofs proofs.AcceptIff proofs.ValidateTotal proofs.ElabFloats proofs.GateProofs.
 
 (** whenever the validator returns (any fuel that does not run out), it returns True exactly on conforming data *)
 Theorem C10_iff : forall f o e s v b, validate f o e s (Some v) = Ok b -> (b = true <-> conformsP o e s v).
@@ -36,6 +36,25 @@ Print Assumptions C10_raise_agrees.
 Theorem C10_raise_iff : forall f o e s ov, validate_raise f o e s ov = VRaised <-> validate f o e s ov = Ok false.
 Proof. exact validate_raise_iff. Qed.
 Print Assumptions C10_raise_iff.
+
+(** nothing but ValidationError: for schemas whose by-name references all resolve ([closed_refs e s], [closed_env e]: what
+    parse_schema guarantees; evaluated in-model on every generated case) the validator never raises a foreign exception --
+    raise_errors=False answers True / False, raise_errors=True returns or raises ValidationError (or the model needs more
+    fuel) -- and the writers' branch search, which runs the validator, never fails with a foreign exception either *)
+Theorem C10_only_validation_error : forall o e, closed_env e = true ->
+  forall f s ov, closed_refs e s = true -> validate f o e s ov <> Err.
+Proof. exact validate_no_err. Qed.
+Print Assumptions C10_only_validation_error.
+
+Theorem C10_raise_only_validation_error : forall o e f s ov, closed_env e = true -> closed_refs e s = true ->
+  validate_raise f o e s ov <> VErr.
+Proof. exact validate_raise_no_err. Qed.
+Print Assumptions C10_raise_only_validation_error.
+
+Theorem C10_search_no_foreign_exception : forall f o e bs v, closed_env e = true -> forallb (closed_refs e) bs = true ->
+  forall i best most cbf, choose (fun c x => validate f o e c (Some x)) e v bs i best most cbf <> Err.
+Proof. exact search_no_err. Qed.
+Print Assumptions C10_search_no_foreign_exception.
 
 (** strict: a field absent from the datum and without default is never accepted -- even if its type accepts null *)
 Theorem C10_strict : forall f o e n al fs kv fd,
